@@ -229,6 +229,10 @@ class TrainerWorld(World):
         for t in range(T):
             if not tiny and ro.random() < 0.06:
                 ops.append({"op": "clear", "keepshape": ro.random() < 0.5})
+            # the connection's learned delays change between steps (another rule may be learning them): adjusted-delay weight rules read the current ones
+            ad = stream(seed, f"assign_delay{t}")
+            if (cfg["dmode"] == "adjusted" and not pooled and not tiny and not trainer.startswith("cross") and trainer not in DELAY_TARGET and ad.random() < 0.08):
+                ops.append({"op": "assign_delay", "delay_k": [float(ad.randint(0, cfg["kmax"])) for _ in range(int(np.prod(geom.wshape)))]})
             if tiny:
                 x = [(cfg["tiny"] >> t) & 1]
                 y = [(cfg["tiny"] >> (4 + t)) & 1]
@@ -837,6 +841,12 @@ class _Run:
         nz = 0
         offgrid_skip = False
         for op in self.desc["ops"]:
+            if op["op"] == "assign_delay":
+                with ctx.impl("assign delay", facts):
+                    conn.delay = torch.tensor(op["delay_k"], dtype=torch.float32).reshape(tuple(conn.delay.shape)) * self.dt
+                ctx.fault("delays_reassigned_between_steps")
+                ctx.log("assign_delay", op["delay_k"])
+                continue
             if op["op"] == "clear":
                 ctx.fault("trainer_clear")
                 with ctx.impl("trainer.clear", facts):
